@@ -204,6 +204,9 @@ pub fn byte_consumers() -> Vec<(&'static str, Vec<OpCode>)> {
         ("dup", vec![Dup]),
         ("typeq", vec![TypeQ]),
         ("bappend-self", vec![Dup, BAppend]),
+        // a short string appended to / prepended to the long one (either operand order)
+        ("bappend-short-on-top", vec![PushB(vec![1, 2, 3]), BAppend]),
+        ("bappend-short-below", vec![StoreImm(50), PushB(vec![1, 2, 3]), LoadImm(50), BAppend]),
         ("itob", vec![ItoB]),
         ("bez", vec![Bez(0)]),
     ]
@@ -222,6 +225,8 @@ pub fn vec_consumers() -> Vec<(&'static str, Vec<OpCode>)> {
         ("dup", vec![Dup]),
         ("typeq", vec![TypeQ]),
         ("vappend-self", vec![Dup, VAppend]),
+        ("vappend-short-on-top", vec![VEmpty, pi(1), VPush, VAppend]),
+        ("vappend-short-below", vec![StoreImm(50), VEmpty, pi(1), VPush, LoadImm(50), VAppend]),
         ("store-load", vec![pi(5), Store, pi(5), Load]),
         ("bnz", vec![Bnz(0)]),
     ]
